@@ -192,7 +192,8 @@ func (r *CosmosRun) reopen(watchdog time.Duration, label string) *CosmosRecovere
 		return out
 	}
 	for _, id := range r.IDs {
-		p, _, ok := eng.WaitPlanP(ws, id, watchdog, func() int64 { n, _ := nv.Writes(); return n })
+		// progress of this process only: its plugin events plus the client writes of its vault
+		p, _, ok := eng.WaitPlanF(ws, id, watchdog, func() int64 { n, _ := nv.Writes(); return n + l.Novel() })
 		out.Returned = append(out.Returned, ok)
 		if !ok && out.Dump == "" {
 			out.Dump = liveDump(label)
